@@ -196,6 +196,22 @@ def _spell(name, sp):
     return name
 
 
+MTIMES = [0, 1, 86400 * 365, 1600000000, 1700000000, 1790000000, 4102444800, 2 ** 33 + 5]   # epoch .. past .. now .. future
+
+
+def _hdr(rng, profile):
+    """Header fields of a packed member.  profile: 'files' = what tar -cf / tarfile.add give for files written over time
+    (recent, increasing or not), 'mixed' = anything incl. 0, far past and future, 'zero' = hand-made TarInfo defaults."""
+    if profile == 'zero':
+        return {'mtime': 0, 'mode': 0o644, 'uid': 0, 'pax': {}}
+    mtime = 1700000000 + rng.randint(0, 10 ** 7) if profile == 'files' else rng.choice(MTIMES)
+    pax = {}
+    if rng.random() < 0.25:
+        pax = rng.choice([{'comment': 'packed by the harness'}, {'KAPTURE.origin': 'dé/ü'}, {'comment': 'x', 'SCHILY.xattr.user.k': 'v'}])
+    return {'mtime': mtime, 'mode': rng.choice([0o644, 0o600, 0o444, 0o777, 0o755]), 'uid': rng.choice([0, 1000, 65534]),
+            'pax': pax}
+
+
 def _gen_store(rng, images, unknown, kind, ftype):
     if kind == 'Matches':
         dtype, dsize = 'float64', 3
@@ -234,19 +250,24 @@ def _gen_store(rng, images, unknown, kind, ftype):
             idx = sorted(last.values())
             if rng.random() < 0.6:
                 rng.shuffle(idx)
-        members = [[i, None] for i in idx]
+        profile = rng.choice(['files', 'files', 'mixed', 'mixed', 'zero'])
+        members = [[i, None, _hdr(rng, profile)] for i in idx]
+        # how: 'add' = the feature files are really written, then tarfile.add()ed (as `tar -cf` does) and removed;
+        #      'info' = members made from TarInfo objects
         st['tar'] = {'members': members, 'style': style, 'dirs': style == 'dot' or rng.random() < 0.3,
-                     'format': rng.choice(['gnu', 'pax'])}
+                     'format': rng.choice(['gnu', 'pax']), 'how': rng.choice(['add', 'add', 'info'])}
         if rng.random() < 0.2 and writes:
             w = rng.choice(writes)
             st['stale'].append({'key': w['key'], 'hex': _data(rng, dtype, dsize).hex()})
             if rng.random() < 0.5:
                 st['stale'].append({'key': (['zz/only-loose.jpg', images[0]] if kind == 'Matches' else 'zz/only-loose.jpg'),
                                     'hex': _data(rng, dtype, dsize).hex()})
-        if rng.random() < 0.35:
+        if rng.random() < 0.45:
             for _ in range(rng.randint(1, 3)):
-                if kind == 'Matches':
-                    k = rng.choice(keys) if keys and rng.random() < 0.5 else [rng.choice(images), rng.choice(images + unknown)]
+                if keys and rng.random() < 0.65:
+                    k = rng.choice(keys)                       # supersede a packed member
+                elif kind == 'Matches':
+                    k = [rng.choice(images), rng.choice(images + unknown)]
                 else:
                     k = rng.choice(images + unknown)
                 st['appends'].append({'key': k, 'hex': _data(rng, dtype, dsize).hex()})
@@ -290,7 +311,7 @@ def _gen_append(rng, mode):
     api = rng.choice(['handler', 'handler', 'collection'])
     kind = rng.choice(KIND_NAMES)
     images = _images(rng, rng.choice([1, 2, 3]))
-    n_ops = rng.choice([1, 2, 3, 4, 5, 8]) if mode == 'inproc' else rng.choice([2, 3, 4, 5])
+    n_ops = rng.choice([1, 2, 3, 4, 5, 8]) if mode == 'inproc' else rng.choice([2, 3, 4])
     base_kind = rng.choice(['none', 'empty', 'members', 'members']) if api == 'handler' else rng.choice(['empty', 'members'])
     dtype = 'float64' if kind == 'Matches' else rng.choice(list(DTYPES))
     dsize = 3 if kind == 'Matches' else rng.choice([1, 2, 4])
@@ -305,13 +326,21 @@ def _gen_append(rng, mode):
         members = []
         if base_kind == 'members':
             for _ in range(rng.randint(1, 4)):
-                members.append([key(), _data(rng, dtype, dsize).hex(), rng.choice(['plain', 'plain', 'dot'])])
+                members.append([key(), _data(rng, dtype, dsize).hex(), rng.choice(['plain', 'plain', 'dot']),
+                                _hdr(rng, rng.choice(['files', 'files', 'mixed', 'zero']))])
         base = {'members': members, 'dirs': rng.random() < 0.3, 'format': rng.choice(['gnu', 'pax'])}
     ops = []
-    for _ in range(n_ops):
+    # every kill sweep holds one array of at least io.DEFAULT_BUFFER_SIZE bytes (not a multiple of 16 KiB): since every k
+    # is swept, it is the LAST completed append before one of the SIGKILLs; a write-through of such a payload leaves its
+    # tail in the process buffer unless the writer flushes
+    big_at = rng.randrange(n_ops) if mode == 'kill' else (rng.randrange(n_ops) if rng.random() < 0.06 else -1)
+    for j in range(n_ops):
         spelling = _pick_spelling(rng, rng.choice(['plain', 'plain', 'api'])) if api == 'handler' else 'plain'
-        big = rng.random() < (0.15 if mode == 'kill' else 0.04)      # beyond tarfile's 10 KiB record and the 8 KiB buffer
-        ops.append([key(), _data(rng, dtype, dsize, rows=(13000 // (DTYPES[dtype] * dsize) + 1) if big else None).hex(), spelling])
+        rows = None
+        if j == big_at:
+            row = DTYPES[dtype] * dsize
+            rows = -(-rng.choice([8192, 8200, 9000, 12345, 13001]) // row)
+        ops.append([key(), _data(rng, dtype, dsize, rows=rows).hex(), spelling])
     sessions = [n_ops]
     if mode == 'inproc' and n_ops >= 2 and rng.random() < 0.4:
         cut = rng.randint(1, n_ops - 1)
@@ -338,13 +367,24 @@ def _tar_format(name):
     return {'gnu': tarfile.GNU_FORMAT, 'pax': tarfile.PAX_FORMAT}[name]
 
 
-def _write_tar(path, members, dirs, fmt):
-    """members: [(name as spelled, bytes)] in archive order; dirs: also add directory members first."""
+def _apply_hdr(ti, h):
+    ti.mtime = h['mtime']
+    ti.mode = h['mode']
+    ti.uid = ti.gid = h['uid']
+    ti.uname = ti.gname = 'u%d' % h['uid']
+    ti.pax_headers = dict(h['pax'])
+    return ti
+
+
+def _write_tar(path, members, dirs, fmt, real=None):
+    """members: [(name as spelled, header fields, bytes)] in archive order; dirs: also add directory members first.
+    real: None (members made from TarInfo objects) or a function i -> path of a real file that holds member i's bytes
+    right now; the file is given the member's mtime and added with tarfile.add, the way `tar -cf` packs a folder."""
     os.makedirs(os.path.dirname(path), exist_ok=True)
     with tarfile.open(path, 'w', format=_tar_format(fmt)) as t:
         if dirs:
             seen = []
-            for n, _ in members:
+            for n, _, _ in members:
                 d = os.path.dirname(_same_file(n))
                 while d and d not in seen:
                     seen.append(d)
@@ -353,20 +393,31 @@ def _write_tar(path, members, dirs, fmt):
                 ti = tarfile.TarInfo('./' + d if d != '.' else '.')
                 ti.type = tarfile.DIRTYPE
                 ti.mode = 0o755
+                ti.mtime = 1700000000
                 t.addfile(ti)
-        for n, b in members:
-            ti = tarfile.TarInfo(n)
-            ti.size = len(b)
-            ti.mode = 0o644
-            t.addfile(ti, io.BytesIO(b))
+        for i, (n, h, b) in enumerate(members):
+            if real is not None:
+                src = real(i)
+                try:
+                    os.utime(src, (h['mtime'], h['mtime']))
+                except (OSError, OverflowError):
+                    pass
+                t.add(src, arcname=n, recursive=False, filter=lambda ti, h=h: _apply_hdr(ti, h))
+            else:
+                ti = tarfile.TarInfo(n)
+                ti.size = len(b)
+                t.addfile(_apply_hdr(ti, h), io.BytesIO(b))
 
 
 def _phys(path):
-    """Physical log of an archive read with plain tarfile: [(member name, bytes)] of the regular files; None if no archive."""
+    """Physical log of an archive read with plain tarfile: [(member name, header fields, bytes)] of the regular files;
+    None if there is no archive."""
     if not os.path.isfile(path) or os.path.getsize(path) == 0:
         return None
     with tarfile.open(path, 'r') as t:
-        return [(m.name, t.extractfile(m).read()) for m in t.getmembers() if m.isfile()]
+        return [(m.name, {'mtime': int(m.mtime), 'mode': m.mode, 'uid': m.uid,
+                          'pax': {str(k): str(v) for k, v in m.pax_headers.items()}}, t.extractfile(m).read())
+                for m in t.getmembers() if m.isfile()]
 
 
 def _arr(b, dtype, dsize):
@@ -413,14 +464,15 @@ def _write_loose(root, st, K, key, b, raw):
             f.write(b)
     else:
         k['to_file'](p, _arr(b, st['dtype'], st['dsize']))
+    return p
 
 
 def _members_of(st, K):
-    """[(spelled member name, bytes)] of the archive the harness builds for a store."""
+    """[(spelled member name, header fields, bytes)] of the archive the harness builds for a store."""
     out = []
-    for i, sp in st['tar']['members']:
+    for i, sp, h in st['tar']['members']:
         w = st['writes'][i]
-        out.append((_spell(_fname(K, st['fkind'], w['key']), sp), bytes.fromhex(w['hex'])))
+        out.append((_spell(_fname(K, st['fkind'], w['key']), sp), h, bytes.fromhex(w['hex'])))
     return out
 
 
@@ -498,7 +550,16 @@ def _run_dataset(case, ctx):
                 for w in st['writes']:
                     _write_loose(P, st, K, w['key'], bytes.fromhex(w['hex']), w['raw'])
                 continue
-            _write_tar(os.path.join(sub, SPEC[st['fkind']][1]), _members_of(st, K), st['tar']['dirs'], st['tar']['format'])
+            real, written = None, set()
+            if st['tar']['how'] == 'add':
+                def real(i, st=st, written=written):
+                    w = st['writes'][st['tar']['members'][i][0]]
+                    f = _write_loose(P, st, K, w['key'], bytes.fromhex(w['hex']), w['raw'])
+                    written.add(f)
+                    return f
+            _write_tar(os.path.join(sub, SPEC[st['fkind']][1]), _members_of(st, K), st['tar']['dirs'], st['tar']['format'], real)
+            for f in written:
+                os.unlink(f)
             for s in st['stale']:
                 _write_loose(P, st, K, s['key'], bytes.fromhex(s['hex']), False)
         append_error = None
@@ -523,7 +584,7 @@ def _run_dataset(case, ctx):
             names = [_fname(K, st['fkind'], r[0]) for r in st['reads']]
             names += [_fname(K, st['fkind'], w['key']) for w in st['writes'] + st['appends'] + st['stale']]
             if st['tar']:
-                names += [n for n, _ in _members_of(st, K)]
+                names += [n for n, _, _ in _members_of(st, K)]
             if st['fkind'] != 'Matches':
                 names += [i + K[st['fkind']]['ext'] for i in case['images']]
             for n in names:
@@ -581,7 +642,7 @@ def _op_names(case, K):
 
 
 def _base_members(case, K):
-    return [(_spell(_fname(K, case['fkind'], key), sp), bytes.fromhex(hx)) for key, hx, sp in case['base']['members']]
+    return [(_spell(_fname(K, case['fkind'], key), sp), h, bytes.fromhex(hx)) for key, hx, sp, h in case['base']['members']]
 
 
 def _reader_view(case, K, path, root):
@@ -643,7 +704,7 @@ def _run_inproc(case, ctx):
         sessions, pos = [], 0
         for si, n in enumerate(case['sessions']):
             base = _phys(path)
-            s = {'base': None if base is None else [[a, b.hex()] for a, b in base], 'ops': [], 'obs': [], 'windex': [],
+            s = {'base': None if base is None else [[a, h, b.hex()] for a, h, b in base], 'ops': [], 'obs': [], 'windex': [],
                  'error': None}
             th = h = None
             try:
@@ -686,7 +747,7 @@ def _run_inproc(case, ctx):
 def _norm_table(sessions):
     norm = {}
     for s in sessions:
-        for n, _ in (s['base'] or []) + s['ops']:
+        for n in [m[0] for m in (s['base'] or [])] + [o[0] for o in s['ops']]:
             m = _path_secure(n)
             while m != n and n not in norm:
                 norm[n] = m
@@ -713,7 +774,7 @@ def _run_kill(case, ctx):
             path, root = _prepare_archive(case, K, os.path.join(where, f'k{kpt}'))
             if kpt == 0:
                 base = _phys(path)
-                session['base'] = None if base is None else [[a, b.hex()] for a, b in base]
+                session['base'] = None if base is None else [[a, h, b.hex()] for a, h, b in base]
             p = subprocess.Popen([kv.PY, '-B', script], stdin=subprocess.PIPE, stdout=subprocess.PIPE,
                                  stderr=subprocess.DEVNULL, env=kv.impl_env(), text=True)
             p.stdin.write(json.dumps({'api': case['api'], 'path': path, 'root': root, 'fkind': case['fkind'],
@@ -825,7 +886,7 @@ def _oracle_append(case, obs):
             return ('writer process failed or died before completing its appends' if case['mode'] == 'kill'
                     else 'appending through the API raised ' + s['error'].split(':')[0])
         start = {}
-        for n, hx in (s['base'] or []):
+        for n, _, hx in (s['base'] or []):
             start[_same_file(n)] = hx
         for k, ending, seen in s['obs']:
             exp = dict(start)
@@ -866,6 +927,16 @@ def _clog(items):
     return kv.clist(kv.cpair(kv.cstr(n), _cb(b)) for n, b in items)
 
 
+def _chdr(h):
+    return '{| h_mtime := %s; h_mode := %s; h_uid := %s; h_pax := %s |}' % (
+        kv.cz(h['mtime']), kv.cn(h['mode']), kv.cn(h['uid']),
+        kv.clist(kv.cpair(kv.cstr(k), kv.cstr(v)) for k, v in sorted(h['pax'].items())))
+
+
+def _cmembers(items):
+    return kv.clist(kv.cpair(kv.cstr(n), _chdr(h), _cb(b)) for n, h, b in items)
+
+
 def _crd(r):
     if r[0] == 'arr':
         return f'(RArr {kv.cn(r[1])} {_cb(r[2])})'
@@ -894,7 +965,7 @@ def _encode_store(case, st, o, K, norm, packed):
     reads = kv.clist(kv.cpair(kv.cstr(_fname(K, kind, key)), kv.cn(DTYPES[dt]), kv.cn(ds)) for key, dt, ds in st['reads'])
     return ('CStore {| sc_norm := %s; sc_kind := %s; sc_files := %s; sc_tar := %s; sc_appends := %s; sc_handlers := %s; '
             'sc_known := %s; sc_reads := %s; so_images := %s; so_pairs := %s; so_reads := %s |}' % (
-                norm, kv.cstr(kind), _clog(files.items()), kv.copt(_clog(tar)) if tar is not None else 'None',
+                norm, kv.cstr(kind), _clog(files.items()), kv.copt(_cmembers(tar)) if tar is not None else 'None',
                 _clog(appends), kv.cbool(handlers), known, reads, images, pairs, kv.clist(_crd(r) for r in o['reads'])))
 
 
@@ -924,7 +995,7 @@ def encode(case, obs):
             out.append('CAppend {| ac_norm := []; ac_base := None; ac_ops := []; ac_obs := [(1%nat, EKilled, OpenFails)]; ac_windex := [] |}')
             continue
         out.append('CAppend {| ac_norm := %s; ac_base := %s; ac_ops := %s; ac_obs := %s; ac_windex := %s |}' % (
-            norm, 'None' if s['base'] is None else kv.copt(_clog(s['base'])), _clog(s['ops']),
+            norm, 'None' if s['base'] is None else kv.copt(_cmembers(s['base'])), _clog(s['ops']),
             kv.clist(kv.cpair(kv.cnat(k), E[e], _copened(seen)) for k, e, seen in s['obs']),
             kv.clist(kv.cpair(kv.cnat(k), kv.clist(kv.cstr(x) for x in keys)) for k, keys in s['windex'])))
     return kv.clist(out)
@@ -940,7 +1011,7 @@ def nontrivial(case, obs):
 def classify(case, obs):
     if case['kind'] == 'dataset':
         tars = sum(1 for st in case['stores'] if st['tar'])
-        dups = any(st['tar'] and len(st['tar']['members']) > len({json.dumps(st['writes'][i]['key']) for i, _ in st['tar']['members']})
+        dups = any(st['tar'] and len(st['tar']['members']) > len({json.dumps(st['writes'][m[0]]['key']) for m in st['tar']['members']})
                    for st in case['stores'])
         flags = [f for f, on in (('overwrites', dups), ('appends', any(st['appends'] for st in case['stores'])),
                                  ('stale', any(st['stale'] for st in case['stores'])),
@@ -973,7 +1044,7 @@ def _drop_write(st, i):
     st = json.loads(json.dumps(st))
     del st['writes'][i]
     if st['tar']:
-        st['tar']['members'] = [[j - (j > i), t] for j, t in st['tar']['members'] if j != i]
+        st['tar']['members'] = [[m[0] - (m[0] > i)] + m[1:] for m in st['tar']['members'] if m[0] != i]
     return st
 
 
